@@ -2,6 +2,7 @@ SPECIFICATION Spec
 CONSTANTS
   GseLenMax = 4095
   TotalLenMax = 65535
+  ExtLens = {0, 2, 4, 10}
   PduLens = {0,1,26,4086,4087,4088,4089,4090,4091,4092,4093,4094,4095,4096,65526,65527,65528,65529,65530,65531,65532,65533,65534,70000}
   Bufs = {0,3,4,6,7,12,13,14,100,4096,4097,4098,4100,70000}
   AllFills = FALSE
